@@ -22,6 +22,16 @@ Line-protocol front end of the C14 model (requests after the leading `C14` field
          table with these files (empty bodies): → accept|reject TAB hex(file reached)|- TAB csv(requested names)
   mix    <fuel> <limit> <root> <exts> <keys> <files> <main>   (arguments of `run`)
          → out TAB csv(file of each body execution, in order) TAB runsOncePerFile TAB oneObjectPerFile TAB dump
+  sess   <fuel> <limit> <root> <exts> <keys> <fkeys> <files> <n> <sched>
+         a session of n evaluations sharing one importer; sched = `e!stmt;e!stmt;…` (evaluation index,
+         statement in the wire form of `run`); fkeys = the variables that have a getter function
+         → outs(csv) TAB ticks(per evaluation, csv, joined by |) TAB opens TAB dumps(per evaluation, joined by |)
+           TAB sessViewsAgree TAB sessDisjoint TAB nofuel TAB codecache TAB number of module objects
+         (dump of evaluation e: the walk of `run` from its script's array, root `e<e>`; below every module
+          value additionally the FUNCTION view `path.k()=value` for every k of fkeys — the value of k in the
+          array the evaluation's VM has loaded for the module's code)
+  sessmc the same for an importer that caches the module OBJECT per name (`importModuleMC`; NOT the
+         unchanged code — diagnosis only)
 -/
 namespace Risor.C14
 open Risor.Util
@@ -111,7 +121,71 @@ def doRun (shared : Bool) (fuel limit root exts keys files main : String) : Stri
       (if st.compiled.isEmpty then "-" else ",".intercalate (st.compiled.reverse.map fun p => hexOrTilde p.1 ++ ":" ++ toString p.2))]
   | _, _, _, _, _, _, _ => "error\tbad-request"
 
+def showFlat : Val → String
+  | .int i => "i" ++ toString i
+  | .nil => "n"
+  | .list l => "l" ++ ";".intercalate (l.map toString)
+  | .mod _ => "m"
+
+/-- the walk of `dump` with, below every module value, the function view of the getter keys -/
+def dumpS (st : St) (keys fkeys : List Path) : Nat → String → Nat → List String
+  | 0, _, _ => []
+  | fuel + 1, pre, g =>
+    keys.flatMap fun k =>
+      match (st.globals g).lookup k with
+      | none => []
+      | some v =>
+        let path := pre ++ "." ++ hexOrTilde k
+        (path ++ "=" ++ showVal st v) ::
+          (match v with
+           | .mod o =>
+             (match st.attrArray o with
+              | some g' => dumpS st keys fkeys fuel path g'
+              | none => []) ++
+             (match st.fnArray o with
+              | some gf => fkeys.flatMap fun k' =>
+                  match (st.globals gf).lookup k' with
+                  | some v' => [path ++ "." ++ hexOrTilde k' ++ "()=" ++ showFlat v']
+                  | none => []
+              | none => [path ++ ".()=unloaded"])
+           | _ => [])
+
+def parseSched (s : String) : Option (List (Nat × Stmt)) :=
+  if s = "-" then some [] else (s.splitOn ";").mapM fun x =>
+    match x.splitOn "!" with
+    | [e, st] => do pure ((← e.toNat?), (← parseStmt st))
+    | _ => none
+
+/-- the session step by step, attributing every new body execution to the evaluation that ran it -/
+def sessTrace (imp : ImpFn) (env : Env) (n : Nat) (sched : List (Nat × Stmt)) : Sess × List (Nat × Path) :=
+  sched.foldl (fun (acc : Sess × List (Nat × Path)) p =>
+    let s' := sessStep imp env acc.1 p.1 p.2
+    (s', acc.2 ++ (s'.sh.ticks.drop acc.1.sh.ticks.length).map fun t => (p.1, t))) (Sess.init n, [])
+
+def doSess (mc : Bool) (fuel limit root exts keys fkeys files n sched : String) : String :=
+  match fuel.toNat?, limit.toNat?, fromHex root, csvHex exts, csvHex keys, csvHex fkeys, parseFiles files, n.toNat?, parseSched sched with
+  | some fuel, some limit, some root, some exts, some keys, some fkeys, some files, some n, some sched =>
+    let env : Env := { root := root, exts := exts, files := files, limit := limit }
+    let imp : ImpFn := if mc then importModuleMC env fuel else importModule env fuel
+    let r := sessTrace imp env n sched
+    let s := r.1
+    let per := fun (f : Nat → VM → String) => "|".intercalate ((List.range s.vms.length).map fun i =>
+      match s.vms[i]? with | some v => f i v | none => "?")
+    "\t".intercalate [
+      ",".intercalate (s.vms.map fun v => showOut v.out),
+      per (fun i _ => showCsv ((r.2.filter fun t => t.1 == i).map (·.2))),
+      showCsv s.sh.opens,
+      per (fun i v =>
+        let d := dumpS (s.view v) keys fkeys 5 ("e" ++ toString i) v.main
+        if d.isEmpty then "-" else ",".intercalate d),
+      toString (sessViewsAgree s), toString (sessDisjoint s), toString s.sh.nofuel,
+      (if s.sh.compiled.isEmpty then "-" else ",".intercalate (s.sh.compiled.reverse.map fun p => hexOrTilde p.1 ++ ":" ++ toString p.2)),
+      toString s.sh.objs.length]
+  | _, _, _, _, _, _, _, _, _ => "error\tbad-request"
+
 def handle : List String → String
+  | ["sess", fuel, limit, root, exts, keys, fkeys, files, n, sched] => doSess false fuel limit root exts keys fkeys files n sched
+  | ["sessmc", fuel, limit, root, exts, keys, fkeys, files, n, sched] => doSess true fuel limit root exts keys fkeys files n sched
   | ["valid", p] =>
     match fromHex p with
     | some p => toString (validImportPath p) ++ "\t" ++ toString (nameOK p)
